@@ -7,6 +7,7 @@ import (
 	"go/types"
 	"os"
 	"path/filepath"
+	"regexp"
 	"strings"
 
 	"golang.org/x/tools/go/types/typeutil"
@@ -16,8 +17,9 @@ import (
 
 // Table is the reviewed justification table.
 type Table struct {
-	Entries []TableEntry `json:"entries"`
-	used    map[int]bool
+	Entries  []TableEntry `json:"entries"`
+	used     map[int]bool
+	siteKeys map[string]bool
 }
 
 type TableEntry struct {
@@ -56,7 +58,42 @@ func (t *Table) Lookup(s *Site) (string, bool) {
 			return e.Reason, true
 		}
 	}
+	// closure numbers ($3) are ordinals among the function literals of the enclosing function: adding or removing an
+	// unrelated literal renumbers the rest. An entry whose own site no longer exists (its exact key matches no site of
+	// this run) still justifies the one site that differs from it in closure numbers only.
+	if t.siteKeys != nil && closureNum.MatchString(k) {
+		nk := closureNum.ReplaceAllString(k, "$$")
+		cand := -1
+		for i, e := range t.Entries {
+			if t.siteKeys[e.Key] || t.used[i] || closureNum.ReplaceAllString(e.Key, "$$") != nk {
+				continue
+			}
+			if cand >= 0 {
+				return "", false // ambiguous
+			}
+			cand = i
+		}
+		if cand >= 0 {
+			t.used[cand] = true
+			return t.Entries[cand].Reason + " (entry " + t.Entries[cand].Key + ", closure renumbered)", true
+		}
+	}
 	return "", false
+}
+
+var closureNum = regexp.MustCompile(`\$\d+`)
+
+// NoteSites tells the table which site keys exist in this run (for the renumbered-closure fallback of Lookup).
+func (t *Table) NoteSites(sites []*Site) {
+	if t == nil {
+		return
+	}
+	if t.siteKeys == nil {
+		t.siteKeys = map[string]bool{}
+	}
+	for _, s := range sites {
+		t.siteKeys[s.Key()] = true
+	}
 }
 
 type envCache map[ast.Node]*env
@@ -190,6 +227,7 @@ type Options struct {
 // Discharge runs guard recognition and table lookup over sites, recording
 // into rule r. It returns the number of sites in scope.
 func Discharge(c *core.Ctx, r *core.Rule, sites []*Site, opt Options) int {
+	opt.Table.NoteSites(sites)
 	ec := envCache{}
 	n := 0
 	scope := map[string]bool{}
